@@ -467,17 +467,43 @@ def sib_iter(ctx: Ctx) -> List[Ob]:
             if has_pos(pcs, "add_self"):
                 by_case.setdefault(method_case(pcs) or "?", []).append(c)
         pre, post, lev = by_case.get("pre", []), by_case.get("post", []), by_case.get("level", [])
-        ok = len(loops) == 1 and len(pre) == 1 and never_after(ctx, f, loops[0], pre[0])
-        obs.append(ctx.ob("SIB-ITER", ["C06"], f, "visit: add_self calls back on self first unless post-order", None, ok,
-                          "" if ok else "visit() must follow the iterator: start node first except for POST_ORDER"))
-        ok = len(loops) == 1 and len(post) == 1 and never_after(ctx, f, post[0], loops[0])
-        obs.append(ctx.ob("SIB-ITER", ["C06"], f, "visit: add_self calls back on self last for post-order", None, ok,
-                          "" if ok else "visit() must follow the iterator: start node last for POST_ORDER"))
-        if len(pre) == 1 and len(loops) == 1:
-            # the child loop is reached only if the callback on the start node did not answer False
-            ok = any((not pol) and any(pre[0] is x for x in ast.walk(getattr(e, "_orig", e))) and "is False" in norm(e) for e, pol in path_conds(ctx, f, loops[0]))
-            obs.append(ctx.ob("SIB-ITER", ["C06"], f, "visit: a skip verdict on the start node ends the visit", pre[0], ok,
-                              "" if ok else "SkipBranch on the start node must suppress all descendants"))
+        # (three-valued: a start-node callback that is not filed under exactly one of pre / post / level is a shape this
+        # clause does not read; *violated* needs a witness - the wrong order, or a discarded verdict)
+        if not cbs:
+            okp: Optional[bool] = False
+        elif len(loops) == 1 and len(pre) == 1:
+            okp = never_after(ctx, f, loops[0], pre[0])
+        else:
+            okp = None
+        obs.append(ctx.tri("SIB-ITER", ["C06"], f, "visit: add_self calls back on self first unless post-order", None, okp,
+                           "visit() must follow the iterator: start node first except for POST_ORDER"))
+        if not cbs:
+            okq: Optional[bool] = False
+        elif len(loops) == 1 and len(post) == 1:
+            okq = never_after(ctx, f, post[0], loops[0])
+        else:
+            okq = None
+        obs.append(ctx.tri("SIB-ITER", ["C06"], f, "visit: add_self calls back on self last for post-order", None, okq,
+                           "visit() must follow the iterator: start node last for POST_ORDER"))
+        # the child loop is reached only if the callback on the start node did not answer False
+        firsts = [c for c in cbs if len(loops) == 1 and never_after(ctx, f, loops[0], c)]
+        oks: Optional[bool] = None
+        if len(loops) == 1 and firsts:
+            lpc = path_conds(ctx, f, loops[0])
+
+            def tested(c: ast.Call) -> bool:
+                for e, pol in lpc:
+                    for e_ in (e, getattr(e, "_orig", e)):
+                        if any(c is x for x in ast.walk(e_)) and (((not pol) and "is False" in norm(e_)) or (pol and "is not False" in norm(e_))):
+                            return True
+                return False
+
+            if all(tested(c) for c in firsts):
+                oks = True
+            elif any(isinstance(ctx.model.parent_of(c), ast.Expr) for c in firsts):
+                oks = False  # the verdict is thrown away
+        obs.append(ctx.tri("SIB-ITER", ["C06"], f, "visit: a skip verdict on the start node ends the visit", firsts[0] if firsts else None, oks,
+                           "SkipBranch on the start node must suppress all descendants"))
         if len(loops) == 1:
             lp = loops[0]
             ok = len(lp.body) == 1 and isinstance(lp.body[0], ast.Expr) and isinstance(lp.body[0].value, ast.Call) \
@@ -495,6 +521,8 @@ def sib_iter(ctx: Ctx) -> List[Ob]:
             ok = method_case(pcs) == "level" and bool(first) and never_after(ctx, f, lc, loops[0]) \
                 and any((not pol) and any(any(c is x for x in ast.walk(getattr(e, "_orig", e))) for c in first) for e, pol in pcs) \
                 and any((not pol) and norm(e) == "method == IterMethod.LEVEL_ORDER" for e, pol in path_conds(ctx, f, loops[0]))
+        if ok is False and len(lvl_calls) == 1 and len(loops) == 1 and never_after(ctx, f, lvl_calls[0], loops[0]) and method_case(path_conds(ctx, f, lvl_calls[0])) == "level":
+            ok = None  # no witness: the level walk is selected by the method and does not fall through
         obs.append(ctx.tri("SIB-ITER", ["C06"], f, "visit: level-order visits self first (add_self), then the levels, then returns", None, ok,
                            "the level-order branch must not fall through to the depth-first code"))
     return obs
